@@ -487,11 +487,16 @@ def gen_source(seed, variant):
         return rnd.randbytes(24 * 1024)
     if variant == "buzhash":
         return rnd.randbytes(16 * 1024 + 123)
+    if variant == "bigfixed":
+        # three blocks of 2 MiB (more than any in-memory shortcut for "small" chunks) and a tail
+        M = 1 << 20
+        return b"".join(bytes([65 + k]) * 11 + bytes((i * (k + 3)) % 251 for i in range(2 * M - 11)) for k in range(3)) + b"tail" * 300
     raise ValueError(variant)
 
 
 VARIANTS = {
     "fixed": ["--fixed-size", "1KiB", "--compression", "none"],
+    "bigfixed": ["--fixed-size", "2MiB", "--compression", "none"],
     "rollsum": ["--hash-chunking", "RollSum", "--avg-chunk-size", "1KiB", "--min-chunk-size", "256B",
                 "--max-chunk-size", "4KiB", "--rolling-window-size", "64B", "--compression", "brotli"],
     "buzhash": ["--hash-chunking", "BuzHash", "--avg-chunk-size", "512B", "--min-chunk-size", "128B",
@@ -500,7 +505,10 @@ VARIANTS = {
 
 CLONE_MODES = ["plain", "force", "seed1", "seed2", "stdin-seed", "in-place", "seed+in-place",
                # stdin redirected from a regular file (`< seed.bin`) instead of a pipe, alone and in place
-               "stdin-file-seed", "stdin-file-seed+in-place"]
+               "stdin-file-seed", "stdin-file-seed+in-place",
+               # the prior output has a second hard link (a snapshot made with `ln`): an update in place updates the
+               # file behind both names and replaces nothing
+               "in-place-hardlink"]
 LOCS = ["local", "http"]
 VERIFY = ["none", "verify-output", "verify-header"]
 STYLES = ["rel", "abs"]
@@ -547,6 +555,10 @@ def clone_cases(tier):
         for mode in ("plain", "seed1", "in-place"):
             cases.append({"kind": "clone", "mode": mode, "loc": LOCS[0], "verify": VERIFY[1], "style": STYLES[0],
                           "variant": variants[0], "verbose": verbose})
+    # chunks of 2 MiB moved in a cycle, in place (local and HTTP)
+    for loc in LOCS:
+        for mode in ("in-place", "seed+in-place"):
+            cases.append({"kind": "clone", "mode": mode, "loc": loc, "verify": VERIFY[0], "style": STYLES[0], "variant": "bigfixed"})
     for variant in variants:
         for mode in FAIL_MODES:
             for loc in LOCS:
@@ -595,6 +607,11 @@ def _seed_material(source, variant, seed):
     """Seeds / prior output that share part of the source (1 KiB aligned so that the fixed-size
     variant finds the chunks too) plus unrelated bytes."""
     rnd = random.Random("c16-seeds-%d-%s" % (seed, variant))
+    if variant == "bigfixed":
+        # the prior output holds the first two 2 MiB blocks swapped (a cycle: one of them has to be held back)
+        M2 = 2 << 20
+        prior = source[M2:2 * M2] + source[:M2] + source[2 * M2:] + b"old tail" * 50
+        return {"s1": source[:M2] + b"x" * 100, "s2": source[2 * M2:], "stdin": source[M2:2 * M2], "prior": prior, "junk": rnd.randbytes(4096)}
     k = 1024
     n = len(source) // k
     a, b = n // 3, 2 * n // 3
@@ -675,10 +692,12 @@ def run_clone_case(env_, case, case_dir, log_path):
         with open(stdin_path, "wb") as f:
             f.write(mat["stdin"])
         readonly.append(stdin_path)
-    if mode in ("in-place", "seed+in-place", "stdin-file-seed+in-place"):
+    if mode in ("in-place", "seed+in-place", "stdin-file-seed+in-place", "in-place-hardlink"):
         argv.append("--seed-output")
         with open(out_abs, "wb") as f:
             f.write(mat["prior"])
+        if mode == "in-place-hardlink":
+            os.link(out_abs, os.path.join(case_dir, "out", "snapshot.img"))
     if case["verify"] == "verify-output":
         argv.append("--verify-output")
     elif case["verify"] == "verify-header":
@@ -753,7 +772,21 @@ def run_clone_case(env_, case, case_dir, log_path):
             v.append(("foreign-file-truncated", {"path": t["path"]}))
     for relp, what in snapshot_diff(before, after):
         if os.path.realpath(os.path.join(case_dir, relp)) != out_real:
+            if mode == "in-place-hardlink" and relp == os.path.join("out", "snapshot.img") and what == "changed":
+                # the second name of the output: it changes with it as long as both are still the same file
+                try:
+                    if os.path.samefile(os.path.join(case_dir, relp), out_abs):
+                        continue
+                except OSError:
+                    pass
             v.append(("side-file-left", {"path": relp, "what": what}))
+    if mode == "in-place-hardlink":
+        try:
+            same = os.path.samefile(os.path.join(case_dir, "out", "snapshot.img"), out_abs)
+        except OSError:
+            same = False
+        if not same:
+            v.append(("output-replaced-instead-of-updated-in-place", {"mode": mode}))
     ok_out = False
     try:
         with open(out_abs, "rb") as f:
